@@ -2,7 +2,7 @@
 (* step st kind inputs = (st', expected observations).                                   *)
 (* Kinds flagged by is_monitor have inputs that are *observed* on the implementation and  *)
 (* a constant expected output: a mismatch there is a property violation on the real code. *)
-From VD Require Import Base.Words Model.Layout Model.Queue Extract.QueueIO Extract.QueueMon Extract.OwningIO Extract.MmioIO Model.PciBus Extract.PciBusIO Model.Blk Extract.BlkIO Model.Console Extract.ConsoleIO Extract.ConfigIO Extract.NetIO Extract.ConnMgrIO Extract.VsockIO Extract.InitIO.
+From VD Require Import Base.Words Model.Layout Model.Queue Extract.QueueIO Extract.QueueMon Extract.OwningIO Extract.MmioIO Model.PciBus Extract.PciBusIO Model.Blk Extract.BlkIO Model.Console Extract.ConsoleIO Extract.ConfigIO Extract.NetIO Extract.ConnMgrIO Extract.VsockIO Extract.InitIO Model.Gpu Extract.GpuIO Extract.MiscIO.
 (* C09: required without Import (qualified use below), so that its short names shadow nothing here *)
 From VD Require Extract.TeardownIO.
 
@@ -16,7 +16,9 @@ Inductive mstate :=
 | MNet (n : option netst)
 | MConnMgr (c : option cmio)
 | MVsock (s : option vstate)
-| MTeardown (t : option TeardownIO.tio).
+| MTeardown (t : option TeardownIO.tio)
+| MGpu (g : option gstate)
+| MMisc (q : option qstate).
 
 Definition bad : list N := [77777].
 
@@ -24,7 +26,7 @@ Definition bad : list N := [77777].
 Definition is_diag (k : N) : bool := (k =? 140).
 
 Definition is_monitor (k : N) : bool :=
-  (k =? 1) || (k =? 2) || (k =? 612) || ((150 <=? k) && (k <? 170)) || (k =? 1950) || (k =? 1951) || mmio_is_monitor k || pci_is_monitor k || blk_is_monitor k || console_is_monitor k || config_is_monitor k || net_is_monitor k || connmgr_is_monitor k || vsock_is_monitor k || TeardownIO.teardown_is_monitor k || init_is_monitor k.
+  (k =? 1) || (k =? 2) || (k =? 612) || ((150 <=? k) && (k <? 170)) || (k =? 1950) || (k =? 1951) || mmio_is_monitor k || pci_is_monitor k || blk_is_monitor k || console_is_monitor k || config_is_monitor k || net_is_monitor k || connmgr_is_monitor k || vsock_is_monitor k || TeardownIO.teardown_is_monitor k || init_is_monitor k || gpu_is_monitor k || misc_is_monitor k.
 
 Definition dir_reads (d : N) : bool := (d =? 0) || (d =? 2).
 Definition dir_writes (d : N) : bool := (d =? 1) || (d =? 2).
@@ -85,6 +87,16 @@ Definition step (st : mstate) (k : N) (ins : list N) : mstate * list N :=
     (if TeardownIO.teardown_is_monitor k then (st, TeardownIO.teardown_monitor k ins) else
      let t := match st with MTeardown t => t | _ => None end in
      let '(t', o) := TeardownIO.teardown_step t k ins in (MTeardown t', o))
+  (* ---- C20, GPU part (kinds 2000..2033) ---- *)
+  else if (2000 <=? k) && (k <=? 2033) then
+    (if gpu_is_monitor k then (st, gpu_monitor k ins) else
+     let g := match st with MGpu g => g | _ => None end in
+     let '(g', o) := gpu_step g k ins in (MGpu g', o))
+  (* ---- C20, rng / rtc / 9p part (kinds 2067..2099) ---- *)
+  else if (2067 <=? k) && (k <? 2100) then
+    (if misc_is_monitor k then (st, misc_monitor k ins) else
+     let q := match st with MMisc q => q | _ => None end in
+     let '(q', o) := misc_step q k ins in (MMisc q', o))
   else if k =? 1950 then (st, [b2n (mon_owning ins)])
   else if k =? 1951 then (st, [b2n (mon_input ins)])
   else if (1900 <=? k) && (k <? 1950) then
